@@ -105,4 +105,25 @@ def run(ctx):
                "a proof's ProofRefs field is decoded as one proof kind and unwrapped WITHOUT testing the proof's blueprint: a proof of the other kind "
                "in the auth zone makes the native AuthZone blueprint trap (its sibling max_*_locked tests the blueprint first)", b.loc(unwraps[0]))
     ctx.floor("auth-zone-composition|guarded-siblings (the belief the rule is inferred from)", guarded_n, 2)
+    ctx.rule("T6 over the native entry points that take a caller-chosen Instant (ConsensusManager::compare_current_time_v1/v2) and the "
+             "ConsensusManagerBlueprint methods they call: audited panic surface — a caller may pass any i64, so every unwrap/expect/overflow "
+             "assert on a value derived from it needs a saturating alternative or an audit line (a panic here is a native trap)")
+    CM = "radix_engine::blueprints::consensus_manager::consensus_manager::ConsensusManagerBlueprint"
+    entry = [CM + "::compare_current_time_v1", CM + "::compare_current_time_v2"]
+    scope_fns = set()
+    for e_ in entry:
+        if ctx.anchor(e_):
+            scope_fns.add(e_)
+            for x in ctx.bodies_of(e_):
+                for c in x.fn.calls:
+                    if c[0].startswith(CM + "::") and c[0] in F.fns:
+                        scope_fns.add(F.fns[c[0]].root)
+    bodies_t = [x for r_ in sorted(scope_fns) for x in ctx.bodies_of(r_)]
+    audited_t = {
+        r"ConsensusManagerBlueprint::milli_to_minute$": {"DivisionByZero": (1, "constant divisor MILLIS_IN_MINUTE"), "Overflow(Div)<i64>": (1, "positive constant divisor: i64::MIN / -1 impossible")},
+        r"ConsensusManagerBlueprint::epoch_minute_to_instant$": {"Overflow(Mul)<i64>": (1, "i32 widened to i64 times 60 fits i64")},
+        r"ConsensusManagerBlueprint::epoch_milli_to_instant$": {"DivisionByZero": (1, "constant divisor"), "Overflow(Div)<i64>": (1, "positive constant divisor")},
+    }
+    total_t, dis_t, listed_t = check_panic_surface(ctx, "instant-comparison-panic-surface", bodies_t, audited_t, what="caller-chosen Instant path")
+    ctx.floor("instant-comparison-panic-surface|functions", len(scope_fns), 3)
     ctx.assume("absence of panics outside the native-VM unwind boundary and of traps inside native blueprints is value-dependent and not decided")
